@@ -388,7 +388,7 @@ func TestC17_Subcommands(t *testing.T) {
 			}
 			return s
 		}
-		sub := rapid.SampledFrom([]string{"search", "pipeline", "save", "save-pipeline", "history", "history", "alias-add", "alias-list", "alias-remove", "setup", "wizard", "wizard", "help", "completion", "version", "bare", "unknown"}).Draw(t, "sub")
+		sub := rapid.SampledFrom([]string{"search", "pipeline", "save", "save-pipeline", "history", "history", "history", "history", "alias-add", "alias-list", "alias-remove", "setup", "wizard", "wizard", "help", "completion", "version", "bare", "unknown"}).Draw(t, "sub")
 		var args []string
 		stdin := ""
 		switch sub {
@@ -411,18 +411,25 @@ func TestC17_Subcommands(t *testing.T) {
 		case "save-pipeline":
 			args = []string{"save-pipeline", "--description=" + arg("desc"), "--", arg("n"), arg("c")}
 		case "history":
+			// any combination of the view flags, limits and a pattern, often after real searches
+			for i := rapid.SampledFrom([]int{1, 2, 0, 3}).Draw(t, "prior-searches"); i > 0; i-- {
+				runWtf(h, dir, []string{"--no-color", "-d", dbp, "--", rapid.SampledFrom([]string{"list files", "disk", "compress directory", "x"}).Draw(t, "prior-q")})
+			}
 			args = []string{"history"}
-			switch rapid.IntRange(0, 5).Draw(t, "hmode") {
-			case 0:
-				args = append(args, "--top")
-			case 1:
-				args = append(args, "--stats")
-			case 2:
-				args = append(args, "--clear")
-			case 3:
-				args = append(args, "--limit", strconv.Itoa(rapid.SampledFrom([]int{-3, 0, 1, 1000000}).Draw(t, "hl")), "--top")
-			case 4:
-				args = append(args, "--", arg("pattern"))
+			for _, f := range []string{"--top", "--stats", "--clear"} {
+				if rapid.IntRange(0, 3).Draw(t, "hflag"+f) == 0 {
+					args = append(args, f)
+				}
+			}
+			if rapid.IntRange(0, 2).Draw(t, "hlimit") > 0 {
+				args = append(args, "--limit", strconv.Itoa(rapid.SampledFrom([]int{-1, -3, 0, 1, 2, 1000000, -1000000}).Draw(t, "hl")))
+			}
+			if rapid.IntRange(0, 2).Draw(t, "hpattern") > 0 {
+				pat := rapid.SampledFrom([]string{"i", "list", "dis", "", "x", "find", "zz"}).Draw(t, "pattern-word")
+				if rapid.IntRange(0, 3).Draw(t, "hostile-pattern") == 0 {
+					pat = arg("pattern")
+				}
+				args = append(args, "--", pat)
 			}
 		case "alias-add":
 			args = []string{"alias", "add", "--", name("alias")}
